@@ -1,5 +1,6 @@
 import PRV.Driver.Core
 import PRV.Model.Sched
+import PRV.Model.SchedSlow
 namespace PRV.Driver.C07
 open PRV.Driver PRV.Model.Sched
 
@@ -8,6 +9,7 @@ structure St where
   tl : TaskList := {}
   tlSerial : Nat := 0
   tlDead : Bool := false
+  slow : PRV.Model.SchedSlow.S := { primary := "primary", cur := "primary" }
 
 def showKind : EndKind → String
   | .done => "done" | .deadline => "deadline" | .proxyExited => "proxyexited"
@@ -34,6 +36,17 @@ def stepEv (st : St) (ev : Ev) : St × List String :=
   let r := step st.s ev
   ({ st with s := r.1 }, withCount r.1 r.2)
 
+def showOutS : PRV.Model.SchedSlow.OutS → String
+  | .begin d tid => s!"begin {d} {if tid.isSome then 1 else 0}"
+  | .base o => showOut o
+
+def slowLines (s : PRV.Model.SchedSlow.S) (outs : List PRV.Model.SchedSlow.OutS) : List String :=
+  (if s.ambig then ["AMBIGUOUS"] else []) ++ outs.map showOutS ++ (if s.pc = .exited then [] else [s!"count {s.tl.size}"])
+
+def stepSlow (st : St) (ev : PRV.Model.SchedSlow.Ev) : St × List String :=
+  let r := PRV.Model.SchedSlow.step st.slow ev
+  ({ st with slow := r.1 }, slowLines r.1 r.2)
+
 def step (st : St) : List String → St × List String
   | ["init"] => let r := init "primary"; ({ st with s := r.1 }, withCount r.1 r.2)
   | ["add", cid, job, dl] => stepEv st (.add cid (cid ++ "dest") (parseInt job) (parseInt dl))
@@ -41,6 +54,14 @@ def step (st : St) : List String → St × List String
   | ["share", d] => stepEv st (.share (parseInt d))
   | ["tick", t] => stepEv st (.tick (parseInt t))
   | ["exit", k] => stepEv st (.proxyExit (k = "dest"))
+  -- slow destination changes (Model/PRV.Model.SchedSlow.lean)
+  | ["sinit"] => let r := PRV.Model.SchedSlow.init "primary"; ({ st with slow := r.1 }, slowLines r.1 r.2)
+  | ["sadd", cid, job, dl] => stepSlow st (.add cid (cid ++ "dest") (parseInt job) (parseInt dl))
+  | ["sremove", cid] => stepSlow st (.remove cid)
+  | ["sshare", d] => stepSlow st (.share (parseInt d))
+  | ["stick", t] => stepSlow st (.tick (parseInt t))
+  | ["srelease"] => stepSlow st .release
+  | ["sexit"] => stepSlow st .proxyExit
   -- raw TaskList
   | ["tladd", cid] =>
     if st.tlDead then (st, []) else
